@@ -1,4 +1,5 @@
 import Knut.FactsAgree.TransParser3
+import Knut.Proofs.SyntaxExamples
 /-!
 # The translated parser agrees with the model parser, part 4: `parseDirective`, `ParseFile`, and the whole of `syntax.ParseFile`
 
@@ -333,5 +334,24 @@ example : goSyntaxParse 1 [] "j" ⟨false⟩ = .ok (goFile [] "j" ⟨⟨0, 0⟩,
     simp [parseText, start, parseFile, fileLoop_eq, atEOF, rng]
   rw [hp] at this
   exact this
+
+/-- non-vacuity: the worked example of C07 (a comment line and an `open` directive, 23 tokens), with a callback installed: the
+translation returns the converted tree -/
+example : goSyntaxParse 24 (bytesOf exText) "j.knut" ⟨true⟩ =
+    .ok (goFile (bytesOf exText) "j.knut" ⟨⟨0, 23⟩, [⟨⟨3, 22⟩, .open ⟨⟨3, 22⟩, ⟨⟨3, 13⟩⟩, ⟨⟨19, 22⟩, false⟩⟩⟩]⟩, .nil) := by
+  have := goSyntaxParse_agrees (bytesOf exText) "j.knut" ⟨true⟩ 24 (by rw [ex_decode]; decide)
+  rw [ex_parse] at this
+  exact this
+
+/-- non-vacuity of the error side: an invalid byte after the first digit; the translation returns the model's chain of five links -/
+example : ∃ pv, goSyntaxParse 3 [0x32, 0xff] "j.knut" ⟨false⟩ =
+    .ok (pv, goErr [0x32, 0xff] "j.knut" [Frame.at "invalid unicode character" ⟨1, 1⟩, Frame.at "reading next character" ⟨0, 1⟩,
+      Frame.at "while parsing the date" ⟨0, 1⟩, Frame.at "while parsing directive" ⟨0, 1⟩,
+      Frame.at "while parsing file `j.knut`" ⟨0, 1⟩]) := by
+  have hd : decodeAll [0x32, 0xff] = [⟨0x32, [0x32]⟩, ⟨runeError, [0xff]⟩] := by
+    simp [decodeAll_cons, decodeRune]
+  have := goSyntaxParse_agrees [0x32, 0xff] "j.knut" ⟨false⟩ 3 (by rw [hd]; decide)
+  rw [ex_invalid] at this
+  exact this.2
 
 end Knut.FactsAgree.TransParser
